@@ -486,6 +486,29 @@ func TestConsLin(t *testing.T) {
 		if len(panics) > 0 {
 			vkit.Fail(t, "C02/panic", "panic while several goroutines share one consumer: %v\ncase: %v", panics, trace)
 		}
+		// C01 on a shared consumer: no value is skipped — a Get may return v only if some Get that could have come
+		// before it (called before this one returned) returned v-1
+		for _, g := range ops {
+			in, out := g.Input.(slIn), g.Output.(slOut)
+			if in.op != "get" || out.err || out.val <= 1 {
+				continue
+			}
+			ok := false
+			for _, h := range ops {
+				hi, ho := h.Input.(slIn), h.Output.(slOut)
+				if hi.op == "get" && !ho.err && ho.val == out.val-1 && h.Call < g.Return {
+					ok = true
+					break
+				}
+			}
+			if !ok {
+				var hist []string
+				for _, o := range ops {
+					hist = append(hist, fmt.Sprintf("[%d..%d c%d %s]", o.Call, o.Return, o.ClientId, slModel.DescribeOperation(o.Input, o.Output)))
+				}
+				vkit.Fail(t, "C01+C02/shared-consumer-gap", "a Get on the shared consumer returned %d although no Get had returned %d before: a value of the put order was skipped\ncase: %v\nhistory: %s", out.val, out.val-1, trace, strings.Join(hist, " "))
+			}
+		}
 		res := porcupine.CheckOperationsTimeout(slModel, ops, 20*time.Second)
 		if res == porcupine.Unknown {
 			st.Exclude("porcupine-timeout")
